@@ -425,6 +425,7 @@ def run(chk: Check):
 
     # ============================================================== (S) slicer
     img_cache = {}
+    fstate = {'n': 0, 'max': chk.n(200, 4000)}
 
     def slicer_case(tag, shape, ix, A, cls='n1', sample=False, proxy=False, dim=None, kind='i32', hist=()):
         nifti = cls in ('n1', 'n2', 'p1')
@@ -481,6 +482,16 @@ def run(chk: Check):
         add(f'S{n}.a', f'slaff {lst(shape)} {ixs} {mat2s(A)}', e_aff, case, pred)
         if new is not None:
             add(f'S{n}.h', f'hyp {lst(shape)} {ixs}', 'ok 1', case, pred)
+        if new is not None and proxy and cls in ('n1', 'n2') and data.nbytes <= 1600 and fstate['n'] < fstate['max'] \
+                and n % 5 == 0:
+            # the bytes of the file the image was loaded from, through C06's fileslice model on the canonical index
+            # (theorem C05_slicer_file_backed) against the stored items of the implementation's result
+            fb = image_classes()[cls](data, A).to_bytes()
+            voff = int(img.dataobj.offset)
+            add(f'S{n}.f', f'fslc x{fb.hex()} {lst(shape)} {data.dtype.itemsize} {voff} {ixs}',
+                'ok ' + lst(out.shape) + ' x' + np.asarray(out).tobytes(order='F').hex(), case, pred)
+            fstate['n'] += 1
+            chk.tagc('S:file-bytes-through-fileslice-model')
         if pred:
             prop_fail(case, pred, exp[:300])
 
@@ -518,7 +529,7 @@ def run(chk: Check):
                     ix[a], ix[b] = x, y
                     slicer_case('S2:two-axes', tuple(shape), tuple(ix), FIXED_AFFS[(a + b) % 3], proxy=True, dim=(1, 2, 0))
     # (S3) random tuples
-    for k in range(chk.n(6000, 80000)):
+    for k in range(chk.n(5000, 80000)):
         nd = rng.choice([3, 3, 4, 4, 5])
         shape = tuple(rng.randint(1, 5) for _ in range(nd))
         ix = [rand_slice(rng, shape[i]) for i in range(3)]
